@@ -61,7 +61,7 @@ func viewInstance(o *Oblig) *instView {
 	return v
 }
 
-func replayInstance(u *Universe, st *SpecTables, d *Discharger, o *Oblig, repo string) (string, bool) {
+func replayInstance(u *Universe, st *SpecTables, d *Discharger, o *Oblig, repo string, id string) (string, bool) {
 	if o.Template == nil {
 		rep, ok := replaySymbolic(u, st, d, o, repo)
 		if ok {
@@ -73,7 +73,7 @@ func replayInstance(u *Universe, st *SpecTables, d *Discharger, o *Oblig, repo s
 			if pd == "v3/metric" || pd == "v2/metric" {
 				n := o.Decls.Fn.Obj.Name()
 				if n == "Decode" || n == "decodeOne" || n == "GetVersion" || n == "get" || strings.HasPrefix(n, "Get") || n == "Encode" || n == "String" || n == "IsEmpty" {
-					r2, ok2 := decodeWitnessSearch(st, repo, pd)
+					r2, ok2 := decodeWitnessFor(st, repo, pd, id)
 					return rep + r2, ok2
 				}
 			}
